@@ -5,6 +5,7 @@ import random
 import traceback
 
 import isla.solver as S
+from isla import language
 from isla import _verif
 from isla.derivation_tree import DerivationTree
 from isla.existential_helpers import DIRECT_EMBEDDING, SELF_EMBEDDING, CONTEXT_ADDITION
@@ -67,11 +68,14 @@ class Recorder:
     def data_event(self, ev, f, **kw):
         if not self.data:
             return
-        e = dict({"ev": ev, "kind": "", "sid": 0, "tree": NO_TREE, "ctrue": False, "q": self.snapshot(f["solver"])}, **kw)
+        e = dict({"ev": ev, "kind": "", "sid": 0, "tree": NO_TREE, "ctrue": False, "level": 0, "disj": False,
+                  "q": self.snapshot(f["solver"])}, **kw)
         st = f.get("state")
         if st is not None and ev != "ProbeBegin":
             e["tree"] = pj.tree_to_json(st.tree)
             e["ctrue"] = st.constraint == TRUE_FORMULA
+            e["level"] = st.level
+            e["disj"] = isinstance(st.constraint, language.DisjunctiveFormula)
         self.data_events.append(e)
 
     def tick(self, kind, n):
